@@ -243,13 +243,16 @@ class LaneBasedExecutionQueue : public ExecutionQueue {
       } else {
         queueCompleteCondition.wait_for(lock, std::chrono::seconds(10));
       }
-
-#if _WIN32
-      spawnedProcesses.signalAll(SIGTERM);
-#else
-      spawnedProcesses.signalAll(SIGKILL);
-#endif
     }
+
+    // Escalate even if the queue was already complete when this thread got to
+    // run: the lanes are done, but processes that released their lane may
+    // still be alive, and the destructor waits for them.
+#if _WIN32
+    spawnedProcesses.signalAll(SIGTERM);
+#else
+    spawnedProcesses.signalAll(SIGKILL);
+#endif
   }
 
 public:
